@@ -26,9 +26,15 @@ Definition d_sfail (v : val) : sfail :=
   | _ => SOther
   end.
 
+Definition d_kind (v : val) : pkind :=
+  match v with I 0 => KExact | I 1 => KSub | I 2 => KArray | I 3 => KView | _ => KMutated end.
+Definition v_kind (k : pkind) : val :=
+  I (match k with KExact => 0 | KSub => 1 | KArray => 2 | KView => 3 | KMutated => 4 end).
+
 Definition d_cfg (v : val) : cfg :=
   {| hdrs_ok := dbool (nth_val 0 v); reason_ok := dbool (nth_val 1 v);
-     cap := dnat (nth_val 2 v); err_code := dZ (nth_val 3 v) |}.
+     cap := dnat (nth_val 2 v); err_code := dZ (nth_val 3 v);
+     media_kind := d_kind (nth_val 4 v) |}.
 
 Definition d_sub (v : val) : subarg :=
   match v with L [I 0] => SubNone | L [I 1; n] => SubStr (dN n) | _ => SubBad end.
@@ -37,7 +43,7 @@ Definition d_hdr (v : val) : hdrarg :=
 Definition d_code (v : val) : codearg :=
   match v with L [I 0] => CNone | L [I 1; z] => CInt (dZ z) | _ => CNotInt end.
 Definition d_payload (v : val) : payload :=
-  match v with L [I 0; n] => PGood (dN n) | _ => PBad end.
+  match v with L [I 0; n; k] => PGood (dN n) (d_kind k) | _ => PBad end.
 
 Definition d_op (v : val) : op :=
   match v with
@@ -105,18 +111,18 @@ Definition d_ending (v : val) : ending :=
 Definition v_event (e : event) : val :=
   match e with
   | EAccept s h => L [I 0; vopt vN s; vbool h]
-  | EText n => L [I 1; vN n]
-  | EBytes n => L [I 2; vN n]
+  | EText n k => L [I 1; vN n; v_kind k]
+  | EBytes n k => L [I 2; vN n; v_kind k]
   | EClose c r => L [I 3; I c; vbool r]
   end.
 
 Definition d_event (v : val) : event :=
   match v with
   | L [I 0; s; h] => EAccept (dopt dN s) (dbool h)
-  | L [I 1; n] => EText (dN n)
-  | L [I 2; n] => EBytes (dN n)
+  | L [I 1; n; k] => EText (dN n) (d_kind k)
+  | L [I 2; n; k] => EBytes (dN n) (d_kind k)
   | L [I 3; c; r] => EClose (dZ c) (dbool r)
-  | _ => EText 0%N
+  | _ => EText 0%N KMutated
   end.
 
 Definition v_sfail (k : sfail) : val :=
